@@ -122,14 +122,15 @@ PLAN = {
                    "served / redirected / unmatched; the Location header is parsed and resolved like a client would. Small pools are enumerated exhaustively (thorough tier: also pairs of "
                    "three-segment patterns with adjacent and mid-segment catch-alls against every path over {/ a} up to length 10 - the shape class of repaired defect H).",
         level_note="Trusts the reference matcher and net/url's reference resolution; ambiguity (catch-all value starting with '/') is counted and not judged.",
-        level_more="Later additions: raw non-ASCII queries, route sets registered in one transaction with tolerated refusals, and for every request the iterator's reverse look-up over all methods at once compared with Reverse method by method.",
+        level_more="Later additions: raw non-ASCII queries, route sets registered in one transaction with tolerated refusals, for every request the iterator's reverse look-up over all methods at once compared with Reverse method by method, and requests whose URL path is empty (192 enumerated cases).",
         rule="cases: (options, route set, request target); non-trivial = the reference prescribes a trailing-slash action and the method has "
              ">= 2 routes; distinct by (options, method, sorted patterns, host, target)",
         assumptions=["routing path = URL.RawPath when present, URL.Path otherwise (documented in fox)", "no empty path segments"],
         quick=[REPLAY,
-               R("exhaustive", "^TestExhaustive$", env={"C08_EXH_SEGS": 2, "C08_EXH_SUBSET": 2, "C08_EXH_PATHLEN": 6}, timeout=900),
+               R("exhaustive", "^(TestExhaustive|TestEmptyPath)$", env={"C08_EXH_SEGS": 2, "C08_EXH_SUBSET": 2, "C08_EXH_PATHLEN": 6}, timeout=900),
                R("random", "^TestRandom$", checks=25000, timeout=900)],
         thorough=[REPLAY,
+                  R("empty-path", "^TestEmptyPath$", timeout=300),
                   R("exhaustive", "^TestExhaustive$", shards=16, env={"C08_EXH_SEGS": 2, "C08_EXH_SUBSET": 3, "C08_EXH_PATHLEN": 7}, timeout=3000),
                   # deeper shapes (three segments, adjacent catch-alls, mid-segment catch-alls): the class in which defect H lived
                   R("exhaustive-deep", "^TestExhaustive$", shards=16, timeout=3000,
